@@ -267,3 +267,14 @@ func expectLines(x *OracleCtx, sub, what string, got, want []interp.Value) *Viol
 func vlines(vs ...interp.Value) []interp.Value { return vs }
 
 func cat(vs ...interp.Value) interp.Value { return interp.Concat(vs...) }
+
+// nonBlank drops empty lines (layout between top-level statements).
+func nonBlank(ls []interp.Value) []interp.Value {
+	var out []interp.Value
+	for _, l := range ls {
+		if !isEmpty(l) {
+			out = append(out, l)
+		}
+	}
+	return out
+}
